@@ -95,6 +95,9 @@ impl Poly {
         let on = |i: usize| s[i].abs() <= tau;
         let mut edge_new: HashMap<(usize, usize), usize> = HashMap::new();
         let mut cap: Vec<usize> = vec![];
+        // directed edges of the cap polygon: every cut face contributes the segment between its
+        // entry and its exit point, traversed against the direction of that face's loop
+        let mut cap_edges: Vec<(usize, usize)> = vec![];
         let mut new_faces = Vec::with_capacity(self.faces.len() + 1);
         let faces = std::mem::take(&mut self.faces);
         for (ftag, fnorm, lp) in faces {
@@ -104,6 +107,7 @@ impl Poly {
             }
             let m = lp.len();
             let mut nl: Vec<usize> = Vec::with_capacity(m + 2);
+            let (mut exits, mut entries): (Vec<usize>, Vec<usize>) = (vec![], vec![]);
             for q in 0..m {
                 let a = lp[q];
                 let b = lp[(q + 1) % m];
@@ -125,7 +129,21 @@ impl Poly {
                     };
                     nl.push(vi);
                     cap.push(vi);
+                    if out(a) {
+                        entries.push(vi);
+                    } else {
+                        exits.push(vi);
+                    }
                 }
+            }
+            if exits.len() == 1 && entries.len() == 1 {
+                if exits[0] != entries[0] {
+                    cap_edges.push((entries[0], exits[0]));
+                }
+            } else if !(exits.is_empty() && entries.is_empty()) {
+                // a loop that leaves the half space more than once (classification noise):
+                // no chaining, the cap is ordered by angle
+                cap_edges.push((usize::MAX, usize::MAX));
             }
             nl.dedup();
             while nl.len() > 1 && nl[0] == nl[nl.len() - 1] {
@@ -139,6 +157,14 @@ impl Poly {
         cap.sort();
         cap.dedup();
         if cap.len() >= 3 {
+            if let Some(lp) = chain_cap(&cap, &cap_edges) {
+                new_faces.push((tag, n, lp));
+                self.faces = new_faces;
+                return true;
+            }
+            if std::env::var("MVV_REFDBG").is_ok() {
+                eprintln!("cap fallback: cap {:?} edges {:?}", cap, cap_edges);
+            }
             let c = cap.iter().map(|&i| self.verts[i]).fold(DVec3::ZERO, |a, b| a + b) / cap.len() as f64;
             let u = n.any_orthonormal_vector();
             let w = n.cross(u);
@@ -154,6 +180,36 @@ impl Poly {
         }
         self.faces = new_faces;
         true
+    }
+}
+
+/// The cap polygon from its directed edges (one per cut face): a single simple cycle through all
+/// cut vertices, or None. Unlike an ordering by angle about the centroid this does not depend on
+/// the aspect ratio of the cap (a 2D box of size 1e-16 in a slab of unit thickness).
+fn chain_cap(cap: &[usize], edges: &[(usize, usize)]) -> Option<Vec<usize>> {
+    if edges.len() != cap.len() || edges.iter().any(|e| e.0 == usize::MAX) {
+        return None;
+    }
+    let mut next: HashMap<usize, usize> = HashMap::new();
+    for &(a, b) in edges {
+        if next.insert(a, b).is_some() {
+            return None;
+        }
+    }
+    let start = cap[0];
+    let mut lp = vec![start];
+    let mut cur = *next.get(&start)?;
+    while cur != start {
+        if lp.len() > cap.len() {
+            return None;
+        }
+        lp.push(cur);
+        cur = *next.get(&cur)?;
+    }
+    if lp.len() == cap.len() {
+        Some(lp)
+    } else {
+        None
     }
 }
 
